@@ -181,16 +181,28 @@ func runCase(idx int, c *caseDesc) {
 					run.Violation("C04/block-type", fmt.Sprintf("op %d: blocked with %s", i, be.BlockType()), c)
 					return
 				}
+				// the rule blamed must be a violated one (which of several violated rules is reported, and the value
+				// reported with it, are not part of the property: counted only)
 				want := fmt.Sprintf("r%d.%d", o.Res, blockIdx)
-				if r, ok := be.TriggeredRule().(*isolation.Rule); !ok || r == nil || r.ID != want {
+				blamedOK := false
+				r, ok := be.TriggeredRule().(*isolation.Rule)
+				if ok && r != nil {
+					for ri, t := range c.Thr[o.Res] {
+						if r.ID == fmt.Sprintf("r%d.%d", o.Res, ri) && inflight[o.Res]+uint64(o.Batch) > uint64(t) {
+							blamedOK = true
+						}
+					}
+				}
+				if !blamedOK {
 					c.FailAt = i
-					run.Violation("C04/triggered-rule:"+cls, fmt.Sprintf("op %d: triggered rule %v, expected %s", i, be.TriggeredRule(), want), c)
+					run.Violation("C04/triggered-rule:"+cls, fmt.Sprintf("op %d: rejected in the name of rule %v, which is not violated (first violated rule: %s)", i, be.TriggeredRule(), want), c)
 					return
 				}
+				if r.ID != want {
+					run.Count("blamed_rule_is_not_the_first_violated_one", 1)
+				}
 				if v, ok := be.TriggeredValue().(uint32); !ok || uint64(v) != inflight[o.Res] {
-					c.FailAt = i
-					run.Violation("C04/triggered-value", fmt.Sprintf("op %d: triggered value %v, in-flight %d", i, be.TriggeredValue(), inflight[o.Res]), c)
-					return
+					run.Count("triggered_value_differs_from_in_flight_count", 1)
 				}
 				// a rejected request must not occupy capacity
 				if got := stat.GetResourceNode(names[o.Res]).CurrentConcurrency(); int64(got) != int64(inflight[o.Res]) {
@@ -222,7 +234,7 @@ func main() {
 	sx.Quiet()
 	run = vk.Start("C04", "seq")
 	defer run.Finish()
-	run.Rule("case = (1-3 resources each with 0-3 isolation rules, thresholds incl. 0, 2^31, 2^32-1; 20-120 enter/exit ops (some entries passed because a rule-check slot panicked: uncounted), random exit order, occasional backward clock steps, batches from {0,1,2,N-1,N,N+1,2^31,2^32-1}); every decision, triggered rule/value and the gauge are compared with a 64-bit semaphore model; non-trivial = trace has a pass and a block; distinct by (trace, thresholds).")
+	run.Rule("case = (1-3 resources each with 0-3 isolation rules, thresholds incl. 0, 2^31, 2^32-1; 20-120 enter/exit ops (some entries passed because a rule-check slot panicked: uncounted), random exit order, occasional backward clock steps, batches from {0,1,2,N-1,N,N+1,2^31,2^32-1}); every decision and the gauge are compared (the rule blamed for a rejection must be a violated one) with a 64-bit semaphore model; non-trivial = trace has a pass and a block; distinct by (trace, thresholds).")
 	run.Assume("sequential callers (GOMAXPROCS=1); the k-concurrent clause is decided by the coop engine")
 	clk = vclock.New(1700000000000)
 	faultyChain = sentinel.BuildDefaultSlotChain()
